@@ -137,7 +137,11 @@ def check(ctx):
         'slice/int/list index of small partitions.  R4: '
         'RectPartition.index is evaluated over the finite set of orderings '
         'of the query value relative to the boundaries.  R5: the '
-        'normalisers return one kind of value on every path.',
+        'normalisers return one kind of value on every path.  R7: '
+        'IntervalProd.insert / RectGrid.insert keep every axis of every '
+        'argument in order at the requested position for blocks of any '
+        'dimension and up to three arguments; RectPartition.insert uses the '
+        'same position and order for its set and its grid.',
         ['CPython ast', 'NumPy basic slicing; np.searchsorted(b, v) (default'
          ' side) = first i with b[i] >= v; np.linspace(a, b, n) has stride '
          '(b - a)/(n - 1)'],
